@@ -43,6 +43,11 @@ class Session:
         s = self.state[l][j]
         line = {"op": "mdl.replace", "h": 1, "case": self.n, "lod": l, "part": j, "indices": s["indices"],
                 "subs": split(len(s["indices"]), s["nsub"], self.base(l, j)), "settled": settled}
+        # now and then the SubMesh carriers are taken from another part with the same number of sub-meshes
+        twins = [(l2, j2) for l2 in range(len(self.state)) for j2 in range(len(self.state[l2]))
+                 if (l2, j2) != (l, j) and self.state[l2][j2]["nsub"] == s["nsub"]]
+        if twins and self.rng.random() < 0.35:
+            line["subs_from"] = list(self.rng.choice(twins))
         if template is not None:
             line["_template"], line["nv"] = template, nv
         else:
@@ -208,6 +213,21 @@ def writable_decl_cases(n0, rng):
     return out, n
 
 
+def gap_cases(n0, rng):
+    """unedited write of models whose meshes start at aligned indices, leaving gaps between the index lists (as game files do)"""
+    out, n = [], n0
+    for (c1, s2, c2, s3, c3) in [(3, 8, 6, 16, 3), (5, 6, 4, 16, 2), (9, 16, 3, 24, 6), (1, 2, 1, 4, 1), (7, 8, 9, 24, 3)]:
+        els = [(0, 2, 0), (3, 14, 0)]
+        a, _ = mdlcases.canonical_mesh(rng, els, 4, [rng.randrange(4) for _ in range(c1)], 1, 0)
+        b, _ = mdlcases.canonical_mesh(rng, els, 3, [rng.randrange(3) for _ in range(c2)], 1, s2)
+        c, _ = mdlcases.canonical_mesh(rng, els, 5, [rng.randrange(5) for _ in range(c3)], 2, s3)
+        m = mdlcases.model(rng, 5, [[a, b, c]])
+        out.append(Case([{"op": "mdl.open", "h": 1, "case": n, "bytes": list(mdl.build(m))},
+                         {"op": "mdl.write", "h": 1, "case": n, "unedited": True}], desc={"index gaps": [c1, s2, c2, s3, c3]}))
+        n += 1
+    return out, n
+
+
 def check(run):
     rng = random.Random(run.seed)
     run.model_check("mc/MC_MdlEdit.tla", "mc/MC_MdlEdit.cfg", workers=14)
@@ -240,6 +260,8 @@ def check(run):
                 "that were given values on it; all cases non-trivial")
     for _ in range(60 if run.tier == "quick" else 600):
         cases.append(shape_table_history(n, rng)); n += 1
+    gc, n = gap_cases(n, rng)
+    cases += gc
     run.conform(cases, MODULE, CFG, shards=14, xmx="7g")
     run.assumptions = ["version-5 models with the writer's attribute encodings (position/normal/uv/weights/indices/bitangent/colour)",
                        "geometry of meshes above 2000 vertices is compared by the shim's bit-exact echo test (DESIGN appendix B)"]
